@@ -69,6 +69,9 @@ var symShapes = []symShape{
 	{"main", "init.0", "init func"},
 	{"main", "(*T).Method-fm", "method value"},
 	{"command-line-arguments", "main", "go run package"},
+	{"example.com/tool/main", "Run", "library package whose last element is main"},
+	{"example.com/main/sub", "helper", "main as an inner path element"},
+	{"mainframe", "Boot", "package name that starts with main"},
 }
 
 type fnItem struct {
